@@ -25,19 +25,23 @@ NOT_COVERED = ['perft/search recursion under a recursive contract', 'static eval
 
 UNDO, DONULL, UNDONULL = 'Position__undo_move', 'Position__do_null_move', 'Position__undo_null_move'
 GHOST = 'SPos G_P0; SPos G_P1; uint32_t G_SQ; uint32_t G_PC; int G_I, G_J; uint32_t G_CLASS;\nstruct Position W_P; uint32_t W_m; uint32_t W_mi;\n'
-C_UNDO = ('__CPROVER_requires(sp_state_ok(&G_P0) && sp_pseudo_legal(&G_P0, move) && move_class(&G_P0, move) == G_CLASS && G_SQ < 64 && G_PC >= 1 && G_PC <= 12)\n'
-          '__CPROVER_requires(wf_pos(self) && sp_is(self, &G_P1) && hash_ok(self))\n'
-          '__CPROVER_requires(moveinfo == spec_mi_pack(sp_captured_kind(&G_P0, move), G_P0.rights, G_P0.ep, sp_is_ep(&G_P0, move), G_P0.half))\n'
-          '__CPROVER_requires(G_P0.half <= 150 && self->_history_counter >= 2 && self->_history_counter <= 800)\n'
-          '__CPROVER_requires(sp_kind(sp_captured_code(&G_P0, move)) == 0 || self->_piece_count[sp_captured_code(&G_P0, move)] < 10)\n'
-          '__CPROVER_requires(spec_move_promo(move) == 0 || self->_piece_count[sp_piece(G_P0.side, 1)] < 10)\n'
-          '__CPROVER_assigns(__CPROVER_object_whole(self))\n'
-          '__CPROVER_ensures(self->_board[G_SQ] == G_P0.board[G_SQ])\n'
-          '__CPROVER_ensures(self->_current_side == G_P0.side && self->_castling_rights == G_P0.rights && self->_enpassant_square == G_P0.ep)\n'
-          '__CPROVER_ensures(self->_half_move_counter == G_P0.half && self->_ply_counter == G_P0.ply)\n'
-          '__CPROVER_ensures(self->_history_counter == __CPROVER_old(self->_history_counter) - 1)\n'
-          '__CPROVER_ensures(wf_board_at(self, G_SQ) && wf_row_at(self, G_PC, G_SQ, G_I, G_J))\n'
-          '__CPROVER_ensures(hash_ok(self))\n')
+PRE_UNDO = ('__CPROVER_requires(sp_state_ok(&G_P0) && sp_pseudo_legal(&G_P0, move) && move_class(&G_P0, move) == G_CLASS && G_SQ < 64 && G_PC >= 1 && G_PC <= 12)\n'
+            '__CPROVER_requires(wf_pos(self) && sp_is(self, &G_P1) && hash_ok(self))\n'
+            '__CPROVER_requires(moveinfo == spec_mi_pack(sp_captured_kind(&G_P0, move), G_P0.rights, G_P0.ep, sp_is_ep(&G_P0, move), G_P0.half))\n'
+            '__CPROVER_requires(G_P0.half <= 150 && self->_history_counter >= 2 && self->_history_counter <= 800)\n'
+            '__CPROVER_requires(sp_kind(sp_captured_code(&G_P0, move)) == 0 || self->_piece_count[sp_captured_code(&G_P0, move)] < 10)\n'
+            '__CPROVER_requires(spec_move_promo(move) == 0 || self->_piece_count[sp_piece(G_P0.side, 1)] < 10)\n'
+            '__CPROVER_assigns(__CPROVER_object_whole(self))\n')
+UPARTS = {
+    'state': ('__CPROVER_ensures(self->_current_side == G_P0.side && self->_castling_rights == G_P0.rights && self->_enpassant_square == G_P0.ep)\n'
+              '__CPROVER_ensures(self->_half_move_counter == G_P0.half && self->_ply_counter == G_P0.ply)\n'
+              '__CPROVER_ensures(self->_history_counter == __CPROVER_old(self->_history_counter) - 1)\n'),
+    'board': '__CPROVER_ensures(self->_board[G_SQ] == G_P0.board[G_SQ])\n',
+    'bitboards': '__CPROVER_ensures(wf_board_at(self, G_SQ))\n',
+    'lists': '__CPROVER_ensures(wf_row_at(self, G_PC, G_SQ, G_I, G_J))\n',
+    'keys': '__CPROVER_ensures(hash_ok(self))\n',
+}
+C_UNDO = PRE_UNDO + ''.join(UPARTS.values())
 CAPT = '''
 /* piece code removed by the move (0 if none; the e.p. victim is handled by the e.p. flag of the undo record) */
 static inline uint32_t sp_captured_code(const SPos *P, uint32_t m) { return spec_move_ccode(m) != 0 ? 0u : (sp_is_ep(P, m) ? sp_piece(1 - P->side, 1) : P->board[spec_move_to(m)]); }
@@ -61,13 +65,14 @@ def jobs(tier, seed):
     out = []
     common = dict(spec=SPEC, post_spec=HPOST, force_globals=HG, post=linear_scan)
     for ci, cname in enumerate(CLASSES):
-        h = ND + ('void h_undo(void) { struct Position P = nondet_Position(); uint32_t m = nondet_u32(), mi = nondet_u32(); SPos nondet_SPos(void); G_P0 = nondet_SPos();\n'
-                  '  G_SQ = nondet_u32(); G_PC = nondet_u32(); G_I = nondet_int(); G_J = nondet_int(); G_CLASS = %d; __CPROVER_assume(sp_state_ok(&G_P0) && sp_pseudo_legal(&G_P0, m)); sp_after(&G_P0, m, &G_P1); W_P = P; W_m = m; W_mi = mi;\n' % ci + HSET +
-                  '  %s(&P, m, mi);' % UNDO + CANARY + '}\n')
-        out.append(Job('undo_move/' + cname, PTUS, [UNDO], h, 'h_undo', contracts={UNDO: C_UNDO}, enforce=UNDO, pre_text=HGHOST + GHOST + MOVE_CLASS + CAPT,
-                       unwindset=loops_unwind([('Position__remove_piece', 11), ('Position__move_piece', 11)]), timeout=2400,
-                       route='closed-by-complete-unwinding(11); piece mutators inlined',
-                       note='undo_move restores the abstract state of the position before the move; move class: ' + cname, **common))
+        for part, ens in UPARTS.items():
+            h = ND + ('void h_undo(void) { struct Position P = nondet_Position(); uint32_t m = nondet_u32(), mi = nondet_u32(); SPos nondet_SPos(void); G_P0 = nondet_SPos();\n'
+                      '  G_SQ = nondet_u32(); G_PC = nondet_u32(); G_I = nondet_int(); G_J = nondet_int(); G_CLASS = %d; __CPROVER_assume(sp_state_ok(&G_P0) && sp_pseudo_legal(&G_P0, m)); sp_after(&G_P0, m, &G_P1); W_P = P; W_m = m; W_mi = mi;\n' % ci + HSET +
+                      '  %s(&P, m, mi);' % UNDO + CANARY + '}\n')
+            out.append(Job('undo_move/%s/%s' % (cname, part), PTUS, [UNDO], h, 'h_undo', contracts={UNDO: PRE_UNDO + ens}, enforce=UNDO, pre_text=HGHOST + GHOST + MOVE_CLASS + CAPT,
+                           unwindset=loops_unwind([('Position__remove_piece', 11), ('Position__move_piece', 11)]), timeout=2400, flags=['--slice-formula'],
+                           canary=(part == 'state'), route='closed-by-complete-unwinding(11); piece mutators inlined',
+                           note='undo_move restores the abstract state of the position before the move; move class: %s; part: %s' % (cname, part), **common))
     h = ND + ('void h_dn(void) { struct Position P = nondet_Position(); G_SQ = nondet_u32(); G_PC = nondet_u32(); G_I = nondet_int(); G_J = nondet_int(); __CPROVER_assume(G_PC >= 1 && G_PC <= 12); sp_of(&P, &G_P0);\n' + HSET + '  %s(&P);' % DONULL + CANARY + '}\n')
     out.append(Job('null/do_null_move', PTUS, [DONULL], h, 'h_dn', contracts={DONULL: C_DONULL}, enforce=DONULL, pre_text=HGHOST + GHOST + CAPT, timeout=1200,
                    note='null move: side flipped, e.p. square and its key component cleared, clocks advanced, placement untouched', **common))
